@@ -564,7 +564,7 @@ PROPS = {
                 level_text="Bounded model checking: the element count is one symbolic 64-bit integer (0 <= n < 2^40), so the limit test and the length header are decided for every size at once, per format.",
                 level_note="Trusted: go/ssa, engine, z3. Counts >= 2^40 (no such slice can exist) are outside.",
                 bounds={"n": "symbolic, 0 <= n < 2^40", "formats": 14},
-                outside=["executing element loops of items above the materialised sizes"]),
+                outside=["executing element loops of items above the materialised sizes", "messages longer than one 16,777,215-byte item or two 9 MB items (a decoder limit on the total message size above that is not seen)"]),
     "C14": dict(jobs=c14_jobs,
                 level_text="Bounded model checking by symbolic execution of the real constructors, Type() and decoder: loop-free code over 10-byte headers, every field value symbolic, so each assertion is decided for all values at once.",
                 level_note="Trusted: go/ssa, the engine's interpreter/simplifier, z3. Precondition len(systemBytes)==4 for the Req constructors.", bounds={"values": "unbounded: session id 16 bit, status/reason/pType/sType 8 bit, 4 system bytes all symbolic"},
@@ -575,3 +575,83 @@ DEV = {
     "SMOKE": dict(jobs=smoke_jobs, level_text="dev", level_note="dev", validate_per_job=12),
 }
 NOT_APPLICABLE = {}
+
+
+# ---- bounds and exclusions as built (override the first-draft texts above; one place to keep current) ----
+def _b(pid, quick, thorough, outside):
+    PROPS[pid]["bounds"] = {"quick": quick, "thorough": thorough}
+    PROPS[pid]["outside"] = outside
+
+
+_b("C01",
+   "13 leaf formats x n<=2 symbolic elements (header fields symbolic; encode, decode, re-encode; the same message re-sent under new session id / system bytes); list trees depth<=2 width<=2 over 2 leaf formats; items of 255/256/257 payload bytes for list, binary, ASCII, U1, U2, I2; item header for every size 0..2^40 per format; 3 SML-built messages; lists of 3 x 40,000 and 2 x 9,000,000 characters",
+   "n<=6; trees depth 2 width 2 over 6 leaf formats, depth 3 over 1, depth 1 width 2 over 13 formats with <=2 elements; boundaries also 65,535/65,536 bytes",
+   ["trees beyond the stated depth/width", "items between 65,537 and 8,999,999 bytes other than the named sizes", "messages longer than two 9 MB items (a limit on the total message size above that is not seen)"])
+_b("C02",
+   "13 leaf formats x n<=2 symbolic elements, built directly and by filling an all-variable template (before and after a second fill); list trees depth<=2 width<=2 over 2 leaf formats; incomplete messages (4 kinds); item header for every size per format; items of 255/256 (W=1) or 256 payload bytes for every format; messages around one ASCII item of 300, 70,000 and 16,777,215 characters and around lists of 3 x 40,000 and 2 x 9,000,000 characters",
+   "n<=5; trees as C01 thorough; item boundaries also 65,535/65,536 bytes",
+   ["trees beyond the stated depth/width", "payload values of items above 2 elements other than 3 symbolic positions (first, middle, last) in boundary items"])
+_b("C03",
+   "14-byte frame + k<=3 arbitrary text bytes (frame fixed to a data message) and k<=1 with every frame byte arbitrary, against the reference decoder; 13 formats x n<=2 x 1..3 length bytes (non-minimal allowed) x 8 single corruptions; ASCII/binary items whose 2-3 length bytes are all arbitrary with 0/256/257/300 bytes present; length fields of different widths in sequence (4 layouts); decode->re-encode of list trees depth 2 width 2",
+   "k<=5 (k<=2 with arbitrary frame); n<=3; 1000 bytes present; trees over 4 leaf formats",
+   ["message text longer than the bound without structure", "more than one simultaneous corruption in the structured family", "input slices with spare capacity (C07 sparecap covers the capacity clause)"])
+_b("C04",
+   "names k<=2 arbitrary bytes; ASCII items k<=2 characters (all 128 values); 1- and 2-byte numeric formats full range with n<=2 elements, 4/8-byte formats boundary menu; float menu (15 F4 / 12 F8 values incl. -0 and the float32 that double-rounds through float64) squared; 5 variable/ellipsis templates with ASCII bounds 0..12; 7 fixed accepted texts (print -> parse fixed point)",
+   "k<=4; n<=3; 4/8-byte formats full range with 1 element; symbolic constants in the templates",
+   ["float values outside the menu (strconv's shortest-digit printing and parsing run concretely, they are not encoded)", "messages whose single ellipsis carries a non-canonical name", "names the lexer reads as another token (excluded by the property)"])
+_b("C05",
+   "integer literals of 10 item types x sign: decimal k<=3 symbolic digits, hex 2, octal 3, binary 8, and literals straddling the limit of every width (limit/base with 1 symbolic trailing digit) in all four bases; one arbitrary byte directly behind a literal of 8 classes; two literals per item; wrong-kind literals; strings k<=3 bytes, mixed strings/codes; booleans; float menu in F4/F8 and mixed; radix digits outside the radix",
+   "decimal k<=5, hex 8, octal 6, binary 16 symbolic digits; straddling literals with 1-2 symbolic trailing digits; strings k<=5",
+   ["decimal literals with a leading zero, '+' on unsigned items, '-0' on unsigned items (unspecified)", "control characters inside quoted strings other than CR/LF", "the text->float mapping of strconv.ParseFloat beyond the menu"])
+_b("C06",
+   "arbitrary strings k<=3 bytes; 9 skeletons x 1 arbitrary byte at (every / every second) position, 2 bytes at 7 positions; numbers with 1, 3, 10 symbolic digits in 10 places, and codes / size bounds / ellipsis indices around 2^63 and 2^64 with 1-2 symbolic trailing digits; 40 nested lists around a variable, a value, an ellipsis, two items",
+   "k<=4; 2 arbitrary bytes at every position; numbers up to 12 symbolic digits; 100 nested lists",
+   ["inputs longer than the bound", "runtime-fatal stack exhaustion on megabyte-deep nesting", "coverage-guided mutation (different technique)"])
+_b("C07",
+   "k<=3 arbitrary text bytes (and k<=1 with arbitrary frame); an item header at nesting depth<=2 declaring an arbitrary 1..3-byte length with 0/2 bytes present (5 formats); inputs that are a prefix of a 200,000-byte buffer (5 header kinds); 9 growth families (engine: members 32/64; native: members scale and 2 x scale, 3,000..20,000)",
+   "k<=5; depth<=4, 14 formats, 0/1/2/4 bytes present; growth members 128/256",
+   ["runtime-fatal stack exhaustion on megabyte-deep nesting", "input shapes outside the 9 growth families for the super-linear clause", "unstructured inputs longer than the bound"])
+_b("C08",
+   "12 token sequences (valid, warnings, errors of 6 kinds, one-character tokens, rejected texts with the error behind the item); one layout change per path: 0..2 arbitrary white-space bytes at every boundary (also where optional), a // comment of 0..2 arbitrary bytes ending in LF, CRLF or end of input, with or without a blank, all case patterns of one keyword",
+   "3 white-space bytes, comments up to 4 bytes",
+   ["two simultaneous layout changes", "comment text longer than the bound", "comments inside a size declaration (one token)", "token texts with multi-byte characters (the position oracle counts bytes)"])
+_b("C09",
+   "leaf templates of 8 kind/width pairs with n=2 slots x all variable/fill subsets (values symbolic, unconstrained); ASCII variables k<=2 with 5 bound pairs; nested list template with 5 variables x 32 fill subsets x every two-step split, also with an inserted item that brings its own variable whose name is a key of the same map; message completed in all 6 orders of fill / wait bit / session",
+   "n=3 slots, 12 kind/width pairs; k<=4",
+   ["templates with ellipses (C10)", "fill maps with more than the listed extra keys"])
+_b("C10",
+   "generated templates: two levels of lists; top level <=2 items before and <=1 after an ellipsis, nested lists 1 item before and none after; item menu {constant, <I1 v>, nested list}; every assignment unfilled / 0..2; fixed shapes: <L x ... y> with counts 0..11, <L <L a ... b> ... c> with 0..11 x 0..2, chains of 1, 3, 5 nested lists each unfilled / 0 / 1; the template is unchanged afterwards",
+   "generated: 3 leaf kinds with counts 0..2; three levels; nested lists with 2 items before, counts 0..1; flat lists of <=3 items over 4 leaf kinds, counts 0..3; fixed: counts 0..101, chains up to 6",
+   ["larger templates and repeat counts", "negative repeat counts"])
+_b("C11",
+   "16 scenarios (constructor/producer arguments, accessor and encoder results of messages and of items of all 14 formats with 0/1/2 values, fill maps, variadic slices, shared sub-items, decoder input, window arguments with spare capacity, list templates with an ellipsis anywhere, two fills of one template, control requests answered twice) x one byte position (all explored) xor an arbitrary non-zero mask; observe-derive-observe histories of length <=2",
+   "histories of length <=3",
+   ["histories longer than the scenario sequences", "concurrent mutation (C17)"])
+_b("C12",
+   "every factory x every accepted Go argument type with the argument fully symbolic (1 element per call); fills of leaf variables (3 kinds x 4 Go types); binary strings k<=3; names k<=4 arbitrary bytes in 7 node kinds and with index accessors k<=2; ellipsis placement incl. two ellipses among plain variables x 5 map orders; duplicate names; message fields unconstrained; message fill keeps the header; message names k<=3",
+   "all 10 Go types in fills; k<=6 names; binary strings k<=9",
+   ["message names with non-ASCII whitespace", "binary string forms containing '_' (unspecified)"])
+_b("C13",
+   "header routine and byte-length routine for every count 0 <= n < 2^40 per format (one symbolic 64-bit count); factories at 0, 1, 3 elements and around 255 payload bytes for 14 formats (ASCII content partly arbitrary bytes; encoding requested twice with the first result overwritten); ASCII at 16,777,216 characters through the factory and through FillVariables; decoder read-back: all 1..3 length bytes arbitrary with 0/255/256 bytes present, mixed widths",
+   "factories also around 65,535 bytes, at the first size beyond the limit for all 14 formats and at the largest constructible size for 7 formats and the fill path (2M-16M elements)",
+   ["executing element loops of items above the materialised sizes", "lists of 16,777,216 elements made by ellipsis expansion", "messages longer than one 16,777,215-byte item or two 9 MB items (a decoder limit on the total message size above that is not seen: seeded change C13-d2)"])
+_b("C15",
+   "7 item types x 4 declaration forms x counts 0..2, 1 symbolic digit per bound (+ blank-padded variant with 2 digits, + 20-digit bounds that overflow int); list children carry declarations of their own; ASCII variables: bounds kept, printed, enforced on fill; direct construction with arbitrary ints; bounds through ellipsis expansion",
+   "14 types, counts 0..4, up to 5 symbolic digits per bound",
+   ["declarations preceded by whitespace (position shift is C08)", "counts above 4"])
+_b("C16",
+   "leaves n<=2 and lists depth 1 width<=2 / depth 0 width 3 over 4 kinds, every variable/ellipsis placement, x 3 map orders; shared sub-items; duplicate names through fills; ASCII k<=3 arbitrary bytes; messages around a bare item of 10 kinds with/without a variable, directly and inside 1-2 lists; header routine for every size (never an error within the limit)",
+   "n<=3; width<=3 over 7 kinds; depth 2",
+   ["constants other than the fixed menu (their independence is C09)"])
+_b("C17",
+   "13 operations (print, encode, list, fill, ellipsis expansion, producers, both parsers on accepted, rejected and deeply nested input, control messages) on one template and one complete message with symbolic constants x 4 map orders; objects nobody has observed yet (7 bare items, 1 message); results handed to callers (4 scenarios); histories b, a, b for every pair of operations; natively every operation in 8 goroutines x 25 iterations under the race detector",
+   "same",
+   ["actual schedules beyond the 8-goroutine native runs", "operations on objects outside the menu", "state shared through sync/atomic or under a mutex (exempt from the write-set certificate; only the native runs and the histories see it)"])
+_b("C18",
+   "<=2 producer calls from every start state (3 wait-bit kinds), arguments symbolic and unconstrained",
+   "<=3 producer calls",
+   ["longer sequences", "message names beyond the two-entry menu (C12 covers names)"])
+_b("C19",
+   "12 text kinds (variables, ellipses, header-only, 36 variables, wrong ellipsis numbers, two messages in one text, 34 warnings, every item type with shared names, k<=3 arbitrary leading bytes) : all 9x9 base pairs x 8 separators, 33 further pairs, 7 triples",
+   "k<=4 leading bytes; 167 triples",
+   ["texts outside the menu", "separators longer than 4 bytes"])
